@@ -44,8 +44,6 @@ Section Wire.
                end in
     mkPpp (w_key w) (w_duid w) opt (mkCp (sseq c) (cseq c + N.of_nat (length ops))) k_type ops None.
 
-  Definition is_snap (o : op) : bool := match o with OSnap _ => true | _ => false end.
-
   (* what ApplyPushPullPack reports to the handlers *)
   Record applied := mkApplied {
     a_err : option N;              (* error code handed to the error handler: 200 create, 201 subscribe, 102 sync *)
